@@ -156,17 +156,22 @@ static Node parse_node(const std::vector<std::string> &t, size_t &i) {
 }
 
 // ---------------------------------------------------------------- building through the real factory
-static const int NUM_FUNCS = 4;
+static const int FUNCS_PER_FACTORY = 4;
+static const int NUM_FUNCS = 8;   // #0-3 live in factory 0, #4-7 (same names, same order) in factory 1
 struct Ctx {
-  std::unique_ptr<ExprFactory> f;
+  std::unique_ptr<ExprFactory> fac[2];
   Function funcs[NUM_FUNCS];
+  bool share = false;                    // build identical sub-descriptions once (shared Impl nodes)
+  std::map<std::string, Expr> memo;
   void reset() {
-    f.reset(new ExprFactory());
-    // #0 and #2 carry the same name but are distinct Function objects
-    funcs[0] = f->AddFunction("foo", 2);
-    funcs[1] = f->AddFunction("bar", -1);
-    funcs[2] = f->AddFunction("foo", 2);
-    funcs[3] = f->AddFunction("sym", -1, func::SYMBOLIC);
+    for (int k = 0; k < 2; ++k) {
+      fac[k].reset(new ExprFactory());
+      // #0 and #2 carry the same name but are distinct Function objects
+      funcs[4 * k + 0] = fac[k]->AddFunction("foo", 2);
+      funcs[4 * k + 1] = fac[k]->AddFunction("bar", -1);
+      funcs[4 * k + 2] = fac[k]->AddFunction("foo", 2);
+      funcs[4 * k + 3] = fac[k]->AddFunction("sym", -1, func::SYMBOLIC);
+    }
     for (int i = 0; i < NUM_FUNCS; ++i)
       printf("F %d %s => ok\n", i, hex64(std::hash<const char*>()(funcs[i].name())).c_str());
   }
@@ -184,20 +189,31 @@ static expr::Kind kind_of(const std::string &name) {
   return it->second;
 }
 
-static Expr build(Ctx &cx, const Node &n) {
-  ExprFactory &f = *cx.f;
+static Expr build_node(Ctx &cx, int fac, const Node &n);
+static Expr build(Ctx &cx, int fac, const Node &n) {
+  if (!cx.share) return build_node(cx, fac, n);
+  std::string key(1, (char)('0' + fac));
+  print_node(n, key);
+  auto it = cx.memo.find(key);
+  if (it != cx.memo.end()) return it->second;
+  Expr e = build_node(cx, fac, n);
+  cx.memo[key] = e;
+  return e;
+}
+static Expr build_node(Ctx &cx, int fac, const Node &n) {
+  ExprFactory &f = *cx.fac[fac];
   switch (n.tag) {
   case 'n': return f.MakeNumericConstant(from_bits(n.bits));
   case 'v': return f.MakeVariable((int)n.idx);
   case 'c': return f.MakeCommonExpr((int)n.idx);
   case 'u': {
-    Expr a = build(cx, n.ch[0]);
+    Expr a = build(cx, fac, n.ch[0]);
     if (n.kind == "NOT") return f.MakeNot(cast<LogicalExpr>(a, "logical"));
     if (!in_group(ARR(UN_KINDS), n.kind)) throw BadTree{"unary kind " + n.kind};
     return f.MakeUnary(kind_of(n.kind), cast<NumericExpr>(a, "numeric"));
   }
   case 'b': {
-    Expr l = build(cx, n.ch[0]), r = build(cx, n.ch[1]);
+    Expr l = build(cx, fac, n.ch[0]), r = build(cx, fac, n.ch[1]);
     expr::Kind k = kind_of(n.kind);
     if (in_group(ARR(ARITH_KINDS), n.kind)) return f.MakeBinary(k, cast<NumericExpr>(l, "numeric"), cast<NumericExpr>(r, "numeric"));
     if (in_group(ARR(BINLOG_KINDS), n.kind)) return f.MakeBinaryLogical(k, cast<LogicalExpr>(l, "logical"), cast<LogicalExpr>(r, "logical"));
@@ -206,7 +222,7 @@ static Expr build(Ctx &cx, const Node &n) {
     throw BadTree{"binary kind " + n.kind};
   }
   case 'i': {
-    Expr c = build(cx, n.ch[0]), t = build(cx, n.ch[1]), e = build(cx, n.ch[2]);
+    Expr c = build(cx, fac, n.ch[0]), t = build(cx, fac, n.ch[1]), e = build(cx, fac, n.ch[2]);
     LogicalExpr cond = cast<LogicalExpr>(c, "logical");
     if (n.kind == "IF") return f.MakeIf(cond, cast<NumericExpr>(t, "numeric"), cast<NumericExpr>(e, "numeric"));
     if (n.kind == "IMPLICATION") return f.MakeImplication(cond, cast<LogicalExpr>(t, "logical"), cast<LogicalExpr>(e, "logical"));
@@ -215,7 +231,7 @@ static Expr build(Ctx &cx, const Node &n) {
   }
   case 'p': {
     if (n.sb.empty()) throw BadTree{"plterm without breakpoints"};
-    Expr a = build(cx, n.ch[0]);
+    Expr a = build(cx, fac, n.ch[0]);
     ExprFactory::PLTermBuilder b = f.BeginPLTerm((int)n.sb.size());
     for (auto &p : n.sb) { b.AddSlope(from_bits(p.first)); b.AddBreakpoint(from_bits(p.second)); }
     b.AddSlope(from_bits(n.bits));
@@ -224,14 +240,14 @@ static Expr build(Ctx &cx, const Node &n) {
   case 'f': {
     if (n.idx < 0 || n.idx >= NUM_FUNCS) throw BadTree{"function id"};
     std::vector<Expr> args;
-    for (auto &c : n.ch) args.push_back(build(cx, c));
+    for (auto &c : n.ch) args.push_back(build(cx, fac, c));
     ExprFactory::CallExprBuilder b = f.BeginCall(cx.funcs[n.idx], (int)args.size());
     for (Expr a : args) b.AddArg(a);
     return f.EndCall(b);
   }
   case 't': {
     std::vector<Expr> args;
-    for (auto &c : n.ch) args.push_back(build(cx, c));
+    for (auto &c : n.ch) args.push_back(build(cx, fac, c));
     int na = (int)args.size();
     expr::Kind k = kind_of(n.kind);
     if (in_group(ARR(NUMITER_KINDS), n.kind)) {
@@ -364,8 +380,21 @@ static void emit_prims(const Node &n) {
   for (auto &c : n.ch) emit_prims(c);
 }
 
+static int max_fid(const Node &n) {
+  int m = n.tag == 'f' ? (int)n.idx : -1;
+  for (auto &c : n.ch) m = std::max(m, max_fid(c));
+  return m;
+}
+static size_t count_nodes(const Node &n) { size_t k = 1; for (auto &c : n.ch) k += count_nodes(c); return k; }
+
 static long g_triples = 0;
-static void observe(Ctx &cx, const std::vector<Node> &ts, const char *note) {
+// facs: factory each tree is allocated in (empty: the factory its functions live in, 0 if it has no call)
+static void observe(Ctx &cx, const std::vector<Node> &ts, const char *note, std::vector<int> facs = {}, bool share = false) {
+  if (facs.empty()) for (auto &t : ts) facs.push_back(max_fid(t) >= FUNCS_PER_FACTORY ? 1 : 0);
+  size_t total_nodes = 0;
+  for (auto &t : ts) total_nodes += count_nodes(t);
+  cx.share = share && total_nodes < 400;
+  cx.memo.clear();
   for (auto &t : ts) emit_prims(t);
   std::string line = "P";
   for (size_t i = 0; i < ts.size(); ++i) { line += i ? " | " : " "; print_node(ts[i], line); }
@@ -374,13 +403,14 @@ static void observe(Ctx &cx, const std::vector<Node> &ts, const char *note) {
   if (g_flush) fflush(stdout);
   std::vector<Expr> es;
   try {
-    for (auto &t : ts) es.push_back(build(cx, t));
+    for (size_t i = 0; i < ts.size(); ++i) es.push_back(build(cx, facs[i], ts[i]));
   } catch (const BadTree &b) {
     printf(" bad-tree # %s\n", b.why.c_str());
     return;
   }
   bool rk = false;
   for (auto &t : ts) rk = rk || risky(t);
+  if (getenv("C18_NOFORK")) rk = false;   // coverage runs: children do not flush their counters
   std::vector<Outcome> m;
   if (rk) equal_matrix_forked(es, m);
   else for (Expr a : es) for (Expr b : es) m.push_back(equal_direct(a, b));
@@ -426,6 +456,11 @@ static long long gen_idx() {
 static std::string gen_str() {
   static const char *W[] = {"", "a", "b", "ab", "abc", "abd", "\xff\x80", "a b"};
   int r = R.below(100);
+  if (r < 8) {   // long strings with a long common prefix: differences far from the start
+    std::string s(40 + 8 * R.below(5), 'x');
+    s += W[R.below(6)];
+    return s;
+  }
   if (r < 80) return W[R.below(8)];
   if (r < 90) { std::string s = W[1 + R.below(5)]; s.push_back('\0'); s += W[R.below(6)]; return s; }  // embedded NUL
   std::string s; int n = R.below(12); for (int i = 0; i < n; ++i) s.push_back((char)(1 + R.below(255))); return s;
@@ -466,12 +501,12 @@ static Node gen_num(int d, int &budget) {
   else if (r < 42) { n.tag = 'b'; n.kind = pick(ARITH_KINDS); n.ch.push_back(gen_num(d - 1, budget)); n.ch.push_back(gen_num(d - 1, budget)); }
   else if (r < 50) { n.tag = 'i'; n.kind = "IF"; n.ch.push_back(gen_log(d - 1, budget)); n.ch.push_back(gen_num(d - 1, budget)); n.ch.push_back(gen_num(d - 1, budget)); }
   else if (r < 60) {
-    n.tag = 'p'; int k = 1 + R.below(4);
+    n.tag = 'p'; int k = R.chance(10) ? 5 + R.below(10) : 1 + R.below(4);
     for (int i = 0; i < k; ++i) n.sb.push_back({gen_bits(), gen_bits()});
     n.bits = gen_bits();
     Node a; a.tag = R.chance(75) ? 'v' : 'c'; a.idx = gen_idx(); n.ch.push_back(a);
   }
-  else if (r < 74) { n.tag = 'f'; n.idx = R.below(NUM_FUNCS); int k = gen_arity(budget, 0); for (int i = 0; i < k; ++i) n.ch.push_back(gen_sym(d - 1, budget)); }
+  else if (r < 74) { n.tag = 'f'; n.idx = R.below(FUNCS_PER_FACTORY); int k = gen_arity(budget, 0); for (int i = 0; i < k; ++i) n.ch.push_back(gen_sym(d - 1, budget)); }
   else if (r < 88) { n.tag = 't'; n.kind = pick(NUMITER_KINDS); int k = gen_arity(budget, 0); for (int i = 0; i < k; ++i) n.ch.push_back(gen_num(d - 1, budget)); }
   else if (r < 93) { n.tag = 't'; n.kind = "NUMBEROF"; int k = gen_arity(budget, 1); for (int i = 0; i < k; ++i) n.ch.push_back(gen_num(d - 1, budget)); }
   else if (r < 99) return gen_count(d, budget);
@@ -530,10 +565,12 @@ static std::string mutate_at(Node &n) {
     int r = R.below(5);
     if (r == 0) { n.bits ^= 0x8000000000000000ull; return "const-sign"; }        // 0.0 <-> -0.0 compare equal
     if (r == 1) { n.bits ^= 1; return "const-ulp"; }
+    if (r == 2) { n.bits ^= 1ull << R.below(64); return "const-bit"; }
     uint64_t old = n.bits; n.bits = gen_bits(); return n.bits == old ? "" : "const";
   }
   case 'v': case 'c':
     if (R.chance(30)) { n.tag = n.tag == 'v' ? 'c' : 'v'; return "ref-kind"; }
+    if (R.chance(25)) { n.idx = (long long)(int32_t)((uint32_t)n.idx ^ (1u << (8 + R.below(24)))); return "index-highbit"; }
     n.idx = R.chance(50) ? n.idx + (n.idx < INT_MAX ? 1 : -1) : gen_idx();
     return "index";
   case 'u':
@@ -555,7 +592,7 @@ static std::string mutate_at(Node &n) {
   case 'f': case 't': {
     int r = R.below(4);
     if (r == 0) {
-      if (n.tag == 'f') { n.idx = (n.idx + 1 + R.below(NUM_FUNCS - 1)) % NUM_FUNCS; return "function"; }
+      if (n.tag == 'f') { n.idx = (n.idx / 4) * 4 + (n.idx % 4 + 1 + R.below(FUNCS_PER_FACTORY - 1)) % FUNCS_PER_FACTORY; return "function"; }
       if (repick(NUMITER_KINDS, n.kind) || repick(ITLOG_KINDS, n.kind) || repick(PAIR_KINDS, n.kind)) return "operator";
       return "";
     }
@@ -570,17 +607,39 @@ static std::string mutate_at(Node &n) {
     int r = R.below(4);
     if (r == 0 || n.str.empty()) { n.str.push_back((char)('a' + R.below(3))); return "string-append"; }
     if (r == 1) { n.str.pop_back(); return "string-truncate"; }
-    if (r == 2) { n.str[R.below((int)n.str.size())] ^= 1; return "string-char"; }
+    if (r == 2) { if (R.chance(40)) { n.str.back() ^= 1; return "string-last-char"; } n.str[R.below((int)n.str.size())] ^= 1; return "string-char"; }
     n.str.insert(n.str.begin() + R.below((int)n.str.size() + 1), '\0'); return "string-nul";
   }
   }
   return "";
 }
+static bool numeric_node(const Node &n);
+static bool logical_node(const Node &n) { return n.tag != 's' && !(n.tag == 'i' && n.kind == "IFSYM") && !numeric_node(n); }
+// the node is replaced by op(node), or op(child) by child: the two trees differ in depth at one point
+static std::string wrap_at(Node &n) {
+  if (n.tag == 'u' && R.chance(50)) { Node c = n.ch[0]; n = c; return "unwrap"; }
+  if (n.tag == 'p' || n.tag == 's' || (n.tag == 'i' && n.kind == "IFSYM")) return "";
+  Node u; u.tag = 'u';
+  if (numeric_node(n)) u.kind = pick(UN_KINDS); else if (logical_node(n)) u.kind = "NOT"; else return "";
+  u.ch.push_back(n);
+  n = u;
+  return "wrap";
+}
+static bool pl_arg_or_count(const Node &root, const Node *target) {
+  // children whose static type is narrower than numeric/logical must keep their layout
+  for (auto &c : root.ch) {
+    if (&c == target) return root.tag == 'p' || (root.tag == 'b' && in_group(ARR(LCOUNT_KINDS), root.kind) && &c == &root.ch[1]);
+    if (pl_arg_or_count(c, target)) return true;
+  }
+  return false;
+}
 static Node mutant(const Node &src, std::string &what) {
   for (int attempt = 0; attempt < 20; ++attempt) {
     Node m = src;
     std::vector<Node*> nodes; collect(m, nodes);
-    what = mutate_at(*nodes[R.below((int)nodes.size())]);
+    Node *at = nodes[R.below((int)nodes.size())];
+    if (R.chance(8)) { if (!pl_arg_or_count(m, at)) what = wrap_at(*at); else what = ""; }
+    else what = mutate_at(*at);
     if (!what.empty()) return m;
   }
   what = "copy";
@@ -670,7 +729,19 @@ int main(int argc, char **argv) {
     bool from_a = R.chance(50);
     Node c = derive(from_a ? a : b, maxd, wc);
     std::string note = wb + " " + (from_a ? "A:" : "B:") + wc;
-    observe(cx, {a, b, c}, note.c_str());
+    // B and/or C allocated in a second factory: its functions are other objects (#4-7) with the same names
+    std::vector<int> facs = {0, 0, 0};
+    Node *bc[2] = {&b, &c};
+    for (int k = 0; k < 2; ++k)
+      if (R.chance(20)) {
+        facs[k + 1] = 1;
+        std::vector<Node*> nodes; collect(*bc[k], nodes);
+        for (Node *q : nodes) if (q->tag == 'f') q->idx = q->idx % FUNCS_PER_FACTORY + FUNCS_PER_FACTORY;
+        note += k ? " C@2" : " B@2";
+      }
+    bool share = R.chance(50);
+    if (share) note += " shared";
+    observe(cx, {a, b, c}, note.c_str(), facs, share);
   }
   return 0;
 }
